@@ -50,7 +50,8 @@ func mutateText(r *rand.Rand, text string) string {
 			j := r.Intn(len(toks))
 			toks[k], toks[j] = toks[j], toks[k]
 		case 3:
-			toks[k] = []string{"{", "}", "(", ")", "[", "]", "\"", "'", "`", "/", "//{", "%{", "&", "!", "#", "*", "+", "?", ":", ";", "=", "<-", "\\", "\n", "i", ".", "^", "\\p{", "\\u12", "\\x", "\\8"}[r.Intn(31)]
+			toks[k] = []string{"{", "}", "(", ")", "[", "]", "\"", "'", "`", "/", "//{", "%{", "&", "!", "#", "*", "+", "?", ":", ";", "=", "<-", "\\", "\n", "i", ".", "^", "\\p{", "\\u12", "\\x", "\\8",
+				"[\\p{Lu]", "[\\p{", "[\\pL", "[a-", "[^", "[\\p{Lu}", "\\p", "]]", "[[]", "//{L}", "%{", "`"}[r.Intn(43)]
 		case 4:
 			toks[k] = toks[k] + toks[k]
 		case 5:
@@ -73,7 +74,7 @@ func mutateText(r *rand.Rand, text string) string {
 func C13(c *Ctx) {
 	c.Rule("grammar texts: valid grammars from every profile (PEG, state, throw/recover, left-recursive, rule-reference graphs, optimiser triggers); token-level mutations of them (drop/duplicate/swap/replace tokens, unbalanced braces/quotes/brackets, truncated escapes, injected throw/recover/code blocks, undefined and reserved names); semantic near-misses that still parse (undefined rule references, duplicate rules, rules referencing only themselves, empty classes); raw random bytes and invalid UTF-8; " +
 		"each run under one of 24 flag combinations (every flag and many pairs, unknown entrypoints, -x, -debug, -no-recover), grammar via file or stdin, output via -o or stdout. " +
-		"oracle over (exit status, stdout, stderr, CPU time, output file): terminates (CPU budget 40 s; a wall timeout without CPU overrun is inconclusive); exit 0 => stderr empty and the output is a complete Go file (go/parser accepts it, it defines Parse) or nothing with -x; exit != 0 => documented status, a diagnostic on stderr, and no Go panic trace (with -no-recover a trace is accepted only where the same text without the flag is a parse error). " +
+		"oracle over (exit status, stdout, stderr, CPU time, output file): terminates (CPU budget 30 s; a wall timeout without CPU overrun is inconclusive); exit 0 => stderr empty and the output is a complete Go file (go/parser accepts it, it defines Parse) or nothing with -x; exit != 0 => documented status, a diagnostic on stderr, and no Go panic trace (with -no-recover a trace is accepted only where the same text without the flag is a parse error). " +
 		"distinct_nontrivial = distinct (text, flags) that reached the optimizer/builder (exit 0 or build error) or were rejected by the front-end with a positioned diagnostic")
 	rng := rand.New(rand.NewSource(c.Seed*1543 + 13))
 	type job struct {
@@ -102,7 +103,9 @@ func C13(c *Ctx) {
 		"{\npackage p\n}\nA <- %{L} //{L} 'x' //{M} %{M}\n", "{\npackage p\n}\nA <- x:(%{L}) //{L} B\nB <- A?\n", "{\npackage p\n}\nA <- B C\nB <- C?\nC <- B*\n",
 		"{\npackage p\n}\nA <- ('a' //{L} 'b') / Undefined\n", "{\npackage p\n}\nA <- a:'x' a:'y' { return nil, nil }\n", "{\npackage p\n}\nA <- c:'x' { return c, nil }\n",
 		"{\npackage p\n}\nA <- 'x' { this is not go }\n", "{\npackage p\n}\nA \"\" <- ''\n", "", "\n\n", "{\npackage p\n}\n", "{", "A", "A <-", "A <- 'a", "A <- [a", "A <- \"\\u12\"", "A <- 'a' //{", "A <- %{",
-		"{\npackage p\n}\nA <- B\nB <- C\nC <- D\nD <- A / 'x'\n", "{\npackage p\n}\nA <- &A 'a' / 'b'\n", "{\npackage p\n}\nA <- !. / W A\nW <- [ \\t]*\n",
+		"{\npackage p\n}\nA <- B\nB <- C\nC <- D\nD <- A / 'x'\n",
+		"A = [\\p{Lu]]\n", "A = [\\p{Lu]\n", "A = [\\p{]\n", "A = [\\p", "A = [\\pX]\n", "A = [\\p{Nope}]\n", "A = [a-\n", "A = [\\", "A = [\\x4]\n", "A = [a\\u12]\n", "A = [^\n", "A = []]\n", "A = [\\p{Lu}\\p{\n",
+		"A = 'ab'\n", "A = ''\n", "A = \"\\U00110000\"\n", "A = \"\\ud800\"\n", "A = `unterminated\n", "A = \"a\" /* unterminated\n", "A = \"a\" { if x { }\n", "A = %{L\n", "A = \"a\" //{L,} \"b\"\n", "A = \"a\" //{} \"b\"\n", "{\npackage p\n}\nA <- &A 'a' / 'b'\n", "{\npackage p\n}\nA <- !. / W A\nW <- [ \\t]*\n",
 	}
 	var jobs []job
 	pickFlags := func() []string { return c13FlagCombos[rng.Intn(len(c13FlagCombos))] }
@@ -152,9 +155,11 @@ func C13(c *Ctx) {
 			defer os.Remove(gf)
 			args = append(args, gf)
 		}
-		ctx, cancel := context.WithTimeout(context.Background(), 120*time.Second)
+		ctx, cancel := context.WithTimeout(context.Background(), 75*time.Second)
 		defer cancel()
-		cmd := exec.CommandContext(ctx, c.W.Pigeon, args...)
+		// address-space limit: a runaway allocation must crash pigeon, not the machine
+		shArgs := append([]string{"-c", "ulimit -v 6000000; exec \"$0\" \"$@\"", c.W.Pigeon}, args...)
+		cmd := exec.CommandContext(ctx, "/bin/sh", shArgs...)
 		cmd.Stdin = bytes.NewReader(stdin)
 		var so, se bytes.Buffer
 		cmd.Stdout = &so
@@ -167,7 +172,7 @@ func C13(c *Ctx) {
 			res.Exit = cmd.ProcessState.ExitCode()
 			res.CPU = cmd.ProcessState.UserTime() + cmd.ProcessState.SystemTime()
 		}
-		if ctx.Err() != nil {
+		if ctx.Err() != nil || res.Exit == -1 {
 			res.Killed = true
 		}
 		if useO {
@@ -190,7 +195,7 @@ func C13(c *Ctx) {
 				Sig: c13Sig(j.text, j.flags, res)})
 		}
 		if res.Killed {
-			if res.CPU > 40*time.Second {
+			if res.CPU > 30*time.Second {
 				report("hang", fmt.Sprintf("pigeon does not terminate (%.0f s CPU consumed, killed)", res.CPU.Seconds()))
 			} else {
 				c.Inconclusive("wall_timeout_without_cpu_overrun")
@@ -233,14 +238,14 @@ func C13(c *Ctx) {
 				report("no-output", "exit status 0 but no output file was written")
 				return
 			}
+			// the initializer is the user's: without a package clause in it the output is a file
+			// fragment (pigeon formats it with Fragment: true); accept both forms
 			fs := token.NewFileSet()
-			src := out
-			if !bytes.Contains(src, []byte("package ")) {
-				src = append([]byte("package p\n"), src...)
-			}
-			if _, err := parser.ParseFile(fs, "out.go", src, 0); err != nil {
-				report("incomplete-output", "exit status 0 but the output is not a complete Go file: "+err.Error())
-				return
+			if _, err := parser.ParseFile(fs, "out.go", out, 0); err != nil {
+				if _, err2 := parser.ParseFile(fs, "out.go", append([]byte("package p\n"), out...), 0); err2 != nil {
+					report("incomplete-output", "exit status 0 but the output is not parseable Go: "+err.Error())
+					return
+				}
 			}
 			if !bytes.Contains(out, []byte("func Parse(")) {
 				report("incomplete-output", "exit status 0 but the output does not define Parse")
